@@ -214,19 +214,22 @@ def runLoop (syms : SymbolTable) (rules : List SRule) (lim : Limits) :
     | .error e => ⟨facts, 0, .error (.expr e)⟩   -- early `return`: `iterations` is not updated
     | .ok new =>
       let facts' := factMerge facts new
-      if facts'.length = facts.length then ⟨facts', index, .ok ()⟩
+      if facts'.length = facts.length then
+        -- fixpoint: the facts present count against the budget even when nothing was derived
+        if lim.maxFacts ≤ facts.length then ⟨facts', index, .error .tooManyFacts⟩
+        else ⟨facts', index, .ok ()⟩
       else
         let index := index + 1
-        if index = lim.maxIterations then ⟨facts', index, .error .tooManyIterations⟩
+        if lim.maxIterations ≤ index then ⟨facts', index, .error .tooManyIterations⟩
         else if lim.maxFacts ≤ facts'.length then ⟨facts', index, .error .tooManyFacts⟩
         else if lim.timeoutAt == some index then ⟨facts', index, .error .timeout⟩
         else runLoop syms rules lim fuel index facts'
 
-/-- fuel that cannot run out when the iteration limit is positive -/
-def runFuel (lim : Limits) (extra : Nat) : Nat := if lim.maxIterations = 0 then extra else lim.maxIterations + 1
+/-- fuel that cannot run out: every productive iteration but the last stays below `maxIterations` -/
+def runFuel (lim : Limits) : Nat := lim.maxIterations + 1
 
-def run (syms : SymbolTable) (rules : List SRule) (lim : Limits) (facts : List (List Nat × Fact)) (extra : Nat := 10000) : RunOut :=
-  runLoop syms rules lim (runFuel lim extra) 0 facts
+def run (syms : SymbolTable) (rules : List SRule) (lim : Limits) (facts : List (List Nat × Fact)) : RunOut :=
+  runLoop syms rules lim (runFuel lim) 0 facts
 
 /-! ### queries -/
 
